@@ -12,6 +12,8 @@ fragments; the full statement is false of code and model (`C07_full_statement_fa
 -/
 import PoetryVerif.Proofs.MarkerAlgSoundOps
 import PoetryVerif.Proofs.MarkerAlgSoundStr
+import PoetryVerif.Proofs.MarkerAlgSoundExtra
+import PoetryVerif.Proofs.MarkerAlgSoundComb
 import PoetryVerif.Proofs.MarkerPrint
 
 set_option linter.unusedSimpArgs false
@@ -205,6 +207,48 @@ example : StrLeaf Ex.envAB (.single Ex.sA) ∧ StrLeaf Ex.envAB (.single Ex.sNA)
   · exact ⟨rfl, rfl, ⟨"a", rfl⟩, rfl, ⟨"a", .eq, false⟩, rfl, rfl, rfl, rfl, rfl⟩
   · exact ⟨rfl, rfl, ⟨"a", rfl⟩, rfl, ⟨"a", .ne, false⟩, rfl, rfl, rfl, rfl, rfl⟩
   · exact ⟨rfl, rfl, ⟨"c", rfl⟩, rfl, ⟨"b", .ne, false⟩, rfl, rfl, rfl, rfl, rfl⟩
+
+/-- **The leaf facts hold on the `extra` fragment** (`extra == "a"`, `extra != "a"`, and the atomic
+multi/union markers on `extra`), in every environment that defines the set of active extras: the truth of
+such a leaf is the `extra` denotation of its constraint at the canonicalised set of active extras, and
+merging is exact because the `extra` constraint algebra is (C16 `x_intersect_exact`/`x_union_exact`).
+Remaining hypothesis: the constructor fact `MkExtraOK`. -/
+theorem leafSpec_extra_partial (H : MkExtraOK) {ex : List String} (hE : E.extras = some ex) :
+    LeafSpec (leafEval E) XLeaf := leafSpec_extra H hE
+
+/-- **No hypothesis left on plain values**: for the canonical string variables and `extra`, with atoms whose
+values are plain (no white space, quotes, `|`, `,`; not starting like an operator), the leaf facts hold
+outright — the constructor facts are proved there (`mkAtomOK_plain`, `mkExtraOK_plain`) and the constraint
+algebra is shown never to invent a value (`GC.intersect_GW`, …), so the fragment is closed under merging. -/
+theorem leaf_facts_plain {ex : List String} (hE : E.extras = some ex) : LeafSpec (leafEval E) (PlainLeaf E) :=
+  leafSpec_plain hE
+
+/-- **Intersection and union preserve truth on the plain fragment** — every fuel, every stack, all operands
+over plain string / `extra` leaves, every environment defining the extras; no hypothesis. -/
+theorem intersect_union_sound_plain {ex : List String} (hE : E.extras = some ex) {a b r : M}
+    (ha : M.Good (PlainLeaf E) a) (hb : M.Good (PlainLeaf E) b) :
+    (mIntersect fuel stk a b = .ok r →
+      M.Good (PlainLeaf E) r ∧ M.validate E r = .ok (holds E a && holds E b)) ∧
+    (mUnion fuel stk a b = .ok r →
+      M.Good (PlainLeaf E) r ∧ M.validate E r = .ok (holds E a || holds E b)) :=
+  ⟨fun h => by
+      have := intersect_sound_partial (leafSpec_plain hE) (fun l hl => plainLeaf_evaluable hE hl) ha hb h
+      exact ⟨this.1, this.2.2⟩,
+   fun h => by
+      have := union_sound_partial (leafSpec_plain hE) (fun l hl => plainLeaf_evaluable hE hl) ha hb h
+      exact ⟨this.1, this.2.2⟩⟩
+
+/-- `extra == "a"`, `sys_platform != "a"` are leaves of the plain fragment -/
+example : PlainLeaf Ex.envAB (.single Ex.sNA) ∧
+    PlainLeaf Ex.envAB (.single ⟨"extra", "==", "a", false, .gen (.s (.atom ⟨"a", .eq, true⟩))⟩) := by
+  have hv : PlainValue "a" := by
+    refine ⟨⟨by decide, ?_⟩, ?_⟩
+    · intro c hc; simp at hc; subst hc; unfold tokChar; decide
+    · intro c hc; simp at hc; subst hc; unfold StartOk; decide
+  refine ⟨Or.inl ⟨⟨rfl, rfl, ⟨"a", rfl⟩, rfl, ⟨"a", .ne, false⟩, rfl, rfl, rfl, rfl, rfl⟩, by decide, ?_⟩,
+    Or.inr ⟨⟨rfl, rfl, ⟨"a", .eq, true⟩, rfl, rfl, rfl, rfl, rfl⟩, ?_⟩⟩
+  · intro x hx; simp [leafAtoms, Leaf.c, Ex.sNA, Ex.cNA, Generic.GC.atoms, Generic.GS.atoms] at hx; subst hx; exact hv
+  · intro x hx; simp [leafAtoms, Leaf.c, Generic.GC.atoms, Generic.GS.atoms] at hx; subst hx; exact hv
 
 /-- the leaf facts that remain hypotheses outside the string fragment, as one visible statement:
 version-like variables (through C05's exactness on regular probes), the
